@@ -45,6 +45,23 @@ def place_fields(p):
     return out
 
 
+def place_fields_deep(fn, p, hops=4):
+    """field names of place p; when p is `(*_l)` with _l a single-definition reference `&place2`, the names of place2"""
+    names = place_fields(p)
+    while not names and hops > 0 and p[1] and all(e == '*' for e in p[1]):
+        hops -= 1
+        ds = [x for x in fn.defs().get(p[0], []) if x[2] == 'assign']
+        if len(ds) != 1 or ds[0][3]['k'] not in ('ref', 'use'):
+            break
+        r = ds[0][3]
+        p2 = r['p'] if r['k'] == 'ref' else op_place(r['o'])
+        if p2 is None:
+            break
+        p = p2
+        names = place_fields(p)
+    return names
+
+
 def place_str(p):
     s = '_%d' % p[0]
     for e in p[1]:
@@ -1573,6 +1590,27 @@ def err_block(fn, call):
     return None
 
 
+def err_edge(fn, call):
+    """blocks entered when the (awaited) Result of `call` is observed to be Err: the Break edge of `?`, the Err edge of a
+    `match` / `if let` on the value"""
+    carry = result_flow(fn, call)
+    out = []
+    e = err_block(fn, call)
+    if e is not None:
+        out.append(e)
+    for i in fn.reachable():
+        t = fn.blocks[i]['t']
+        if t['k'] != 'switch':
+            continue
+        for (bb, si, kind, r) in fn.defs().get(op_local(t['o']), []):
+            if kind == 'assign' and r['k'] == 'discr' and r['p'][0] in carry and fn.locals[r['p'][0]].get('h') == 'std::result::Result' and not [x for x in r['p'][1] if x != '*']:
+                hit = [tg for v, tg in t['vals'] if v == 1]
+                if not hit and all(v == 0 for v, _ in t['vals']):
+                    hit = [t['otherwise']]
+                out += hit
+    return out
+
+
 def completion_block(fn, call):
     """Block entered when `call` has completed: the Ready arm of its await, or the call's return block."""
     a = fn.await_of_start(call.bb)
@@ -1745,3 +1783,75 @@ def dominated_up(prog, fn, bb, events_fn, depth=4, seen=None):
         if not ok:
             return False, ['%s called from %s' % (target, c.where())] + w
     return True, []
+
+
+# ---- real suspension points ------------------------------------------------
+_SUSP = {}
+
+
+def coroutines_built_by(prog, fid):
+    """coroutine bodies a (non-coroutine) function constructs: the body of an async fn, or the `Box::pin(async move {..})`
+    of an async_trait stub"""
+    f = prog.fns.get(fid)
+    if f is None:
+        return None
+    if f.is_coroutine:
+        return [fid]
+    out = []
+    for b in f.blocks:
+        if b['c']:
+            continue
+        for s in b['s']:
+            if s['k'] == 'a' and s['r']['k'] == 'agg' and s['r'].get('ak') == 'coroutine' and s['r'].get('def') in prog.fns:
+                out.append(s['r']['def'])
+    return out
+
+
+def await_may_suspend(prog, a):
+    """can `a` (an Await of coroutine a.fn) actually return Pending?  False only when every possible awaitee is a coroutine of
+    this crate none of whose awaits may suspend (an `async fn` that never reaches a leaf future)."""
+    if a.start is None:
+        return True
+    for t in prog.resolve(a.start):
+        if t not in prog.fns:
+            return True
+        cs = coroutines_built_by(prog, t)
+        if not cs:
+            return True
+        if any(may_suspend(prog, c) for c in cs):
+            return True
+    return False
+
+
+def may_suspend(prog, cid):
+    tab = _SUSP.setdefault(id(prog), {})
+    if cid in tab:
+        return tab[cid]
+    tab[cid] = False    # least fixpoint on recursion
+    f = prog.fns[cid]
+    r = False
+    # a bare `yield` that does not belong to an await we understand is a suspension
+    ay = set()
+    for a in f.awaits():
+        if a.yield_bb is not None:
+            ay.add(a.yield_bb)
+        if await_may_suspend(prog, a):
+            r = True
+    if any(y not in ay for y in f.yields if y in f.reachable()):
+        r = True
+    tab[cid] = r
+    return r
+
+
+def real_yields(prog, f):
+    """yield blocks of f at which the future can really be suspended (and hence dropped)"""
+    out = set()
+    known = {}
+    for a in f.awaits():
+        if a.yield_bb is not None:
+            known[a.yield_bb] = a
+    for y in f.yields:
+        a = known.get(y)
+        if a is None or await_may_suspend(prog, a):
+            out.add(y)
+    return out
